@@ -9,6 +9,7 @@ import (
 	"errors"
 	"testing"
 
+	"github.com/DATA-DOG/go-sqlmock"
 	"github.com/go-sql-driver/mysql"
 	"github.com/gotid/god/internal/verifdrv"
 	"github.com/gotid/god/lib/breaker"
@@ -86,6 +87,52 @@ func verifC01Site(site, class int64, useMySQL bool) any {
 	return map[string]any{"ok": dropped == 0, "dropped": dropped, "same": same}
 }
 
+// verifC01TxBody: site 7 TransactCtx / 8 Transact, 300 transactions in a row on a sqlmock database (real begin,
+// successful rollback) whose BODY returns the error of the class, then 50 plain ExecCtx calls that succeed.
+// "ok" iff none of the 350 calls was cut off by the connection's breaker; "same": how many transactions gave the
+// caller exactly the body's error value back.
+func verifC01TxBody(site, class int64, useMySQL bool) any {
+	mdb, mock, err := sqlmock.New()
+	if err != nil {
+		return map[string]any{"error": err.Error()}
+	}
+	defer mdb.Close()
+	mock.MatchExpectationsInOrder(false)
+	e := verifC01Err(class)
+	db := NewConnFromDB(mdb).(*commonConn)
+	if useMySQL {
+		withMySQLAcceptable()(db)
+	}
+	dropped, same := 0, 0
+	for i := 0; i < 300; i++ {
+		mock.ExpectBegin()
+		if e == nil {
+			mock.ExpectCommit()
+		} else {
+			mock.ExpectRollback()
+		}
+		ran := false
+		var err error
+		if site == 7 {
+			err = db.TransactCtx(context.Background(), func(context.Context, Session) error { ran = true; return e })
+		} else {
+			err = db.Transact(func(Session) error { ran = true; return e })
+		}
+		if !ran && err == breaker.ErrServiceUnavailable {
+			dropped++
+		} else if err == e {
+			same++
+		}
+	}
+	for i := 0; i < 50; i++ {
+		mock.ExpectExec("select 1").WillReturnResult(sqlmock.NewResult(1, 1))
+		if _, err := db.ExecCtx(context.Background(), "select 1"); err == breaker.ErrServiceUnavailable {
+			dropped++
+		}
+	}
+	return map[string]any{"ok": dropped == 0, "dropped": dropped, "same": same}
+}
+
 // TestVerifDriverC01: {"arg": e} -> commonConn.acceptable(err) with e: 0 nil, 1 sql.ErrNoRows,
 // 2 sql.ErrTxDone, 3 context.Canceled, 5 another error; arg+10: same with a user accept
 // predicate that accepts nothing.
@@ -100,6 +147,9 @@ func TestVerifDriverC01(t *testing.T) {
 		}
 		if err := json.Unmarshal(raw, &c); err != nil {
 			return map[string]any{"error": err.Error()}
+		}
+		if c.Site != nil && *c.Site >= 7 {
+			return verifC01TxBody(*c.Site, c.Arg, c.MySQL)
 		}
 		if c.Site != nil {
 			return verifC01Site(*c.Site, c.Arg, c.MySQL)
